@@ -20,6 +20,18 @@ impl TokenizationError {
             TokenizationError::InvalidNumber(range) => range.clone(),
         }
     }
+
+    /// Like `string_range`, but given the string that was tokenized, so the
+    /// range always ends on a character boundary (an illegal character may be
+    /// more than one byte long).
+    pub fn string_range_in(&self, string: &str) -> Range<usize> {
+        let range = self.string_range(string.len());
+        let mut end = range.end.min(string.len());
+        while !string.is_char_boundary(end) {
+            end += 1;
+        }
+        range.start.min(end)..end
+    }
 }
 
 impl Display for TokenizationError {
